@@ -1,6 +1,7 @@
 """C01 - a transfer that reports success delivers an identical tree (see transfer_common)."""
 import vlib
 import transfer_common as tc
+import e2e_common
 
 PROP = "C01"
 
@@ -16,8 +17,9 @@ def run(tier, seed):
     other = [x['sig'] for x in res['violations'] if x['sig'].get('property') != 'C01']
     if other:
         v.notes.append("runs that did not end in success on both sides are judged by C03, not here: %s" % str(other[:3])[:400])
+    e2e_common.report_rules(v, PROP, res['trace_rules'])
     v.coverage = dict(states=mc['states'], transitions=mc['transitions'], traces_validated_against_impl=res['behaviours'],
-                      samples=res['samples'][:6], tlc=dict(runs=mc['runs'], invariant="Fidelity: sres=ok /\\ rres=ok => every chunk of every file written correctly"),
+                      samples=res['samples'][:6], hook_traces_validated_by_tlc=res['trace_stats'], transfers_not_traced=res['extra'].get('transfers_not_traced'), tlc=dict(runs=mc['runs'], invariant="Fidelity: sres=ok /\\ rres=ok => every chunk of every file written correctly"),
                       grid=dict(rows_in_grid=res['grid_rows'], runs=res['behaviours'], multi_file_runs=res['distinct'], outcomes=res['extra'].get('outcomes'),
                                 skipped_over_budget=res['extra'].get('skipped_over_budget')))
     v.assumptions = ["file contents are seeded random bytes; trees come from 13 shape classes scaled to the chunk size",
